@@ -126,7 +126,7 @@ var skeletons = []skeleton{
 	// grid items placed by line number, line name and span on a grid with named lines
 	{"grid-lines", "", `<div style="display:grid;grid-template-columns:[a] 1fr [b] 1fr [a];grid-template-rows:[r] auto;{0}"><div style="{1}">ab</div><div style="{2}">cd ef</div><span style="{3}">gh</span></div>`, 4,
 		nil, gridLineMenu},
-	// a running element with its own pseudo-elements, placed in a margin box: element() reference graphs
+	// a running element with its own pseudo-elements, placed in a margin box: element() of itself / of another running element in them
 	{"running-before", `.r{position:running(h)} .r::before{content:"b";{6}} .r::after{content:"a";{7}} @page{@top-center{content:element(h);{8}}}`,
 		`<div class="r" style="{0}">hd <span style="{1}">he</span></div><p style="{2}">ab</p><p style="{3}">cd</p>`, 4,
 		[]string{"::before", "::after", "@top-center"}, elementMenu},
